@@ -20,10 +20,13 @@ FailedPoly(t) ==
     LET got == {<<t.terms[i].a, SetOf(t.terms[i].C) \cup {t.root}, t.terms[i].c>> : i \in DOMAIN t.terms}
         ct == CoefTable(EdgeSet(t.E), t.root)
         Z == SetOf(t.zero_u)   O == SetOf(t.one_u)          \* vertices whose u was the number 0 / the number 1
+        T2 == SetOf(t.two_u)   H == SetOf(t.half_u)         \* ... the number 2 / the number 1/2 (result scaled by 2^|H|)
+        fixed == O \cup T2 \cup H
         rows == {r \in ct : r[2] \cap Z = {}}
-        keys == {<<r[1], r[2] \ O>> : r \in rows}
-        exp == IF Z = {} /\ O = {} THEN ct
-               ELSE {x \in {<<k[1], k[2], ISumSet({r \in rows : r[1] = k[1] /\ r[2] \ O = k[2]}, LAMBDA r : r[3])>> : k \in keys} : x[3] # 0}
+        keys == {<<r[1], r[2] \ fixed>> : r \in rows}
+        wt(r) == r[3] * Pow(2, Cardinality(r[2] \cap T2)) * Pow(2, Cardinality(H) - Cardinality(r[2] \cap H))
+        exp == IF Z = {} /\ fixed = {} THEN ct
+               ELSE {x \in {<<k[1], k[2], ISumSet({r \in rows : r[1] = k[1] /\ r[2] \ fixed = k[2]}, wt)>> : k \in keys} : x[3] # 0}
     IN IF got = exp THEN {} ELSE
        IF {<<r[1], r[2]>> : r \in got} # {<<r[1], r[2]>> : r \in exp} THEN {"polynomial_has_wrong_monomials"} ELSE {"polynomial_has_wrong_coefficients"}
 
